@@ -789,7 +789,15 @@ fn area_misc(cx: &mut Cx, r: &mut Rng) {
             let _ = format!("{:?}", v.clone());
             // Display is public too (cadence::ext::MetricValue): every variant, including empty packed ones
             let _ = format!("{}", v);
+            // ... and a caller may give it (or any other public Display / Debug type) width, fill, alignment, sign and
+            // precision flags, smaller or larger than the text
+            let _ = (format!("{:3}", v), format!("{:>30}", v), format!("{:<1}", v), format!("{:^7}", v), format!("{:*^40}", v), format!("{:08}", v), format!("{:+}", v), format!("{:.2}", v), format!("{:10.3}", v), format!("{:#?}", v));
+            let _ = (format!("{:1$}", v, 2), format!("{:.*}", 0, v), format!("{:#10?}", v), format!("{:02?}", v));
         }
+        let e = cadence::MetricError::from((cadence::ErrorKind::InvalidInput, "x"));
+        let _ = (format!("{:3}", e), format!("{:>40}", e), format!("{:<1}", e), format!("{:#?}", e), format!("{:5?}", e.kind()), format!("{:>30?}", e.kind()));
+        let st = cadence::SinkStats::default();
+        let _ = (format!("{:3?}", st), format!("{:#?}", st), format!("{:>80?}", st));
     });
     // a client over each cheap sink with an empty prefix / prefix of dots
     for p in ["", ".", "....", "a..", "\n"] {
